@@ -41,6 +41,7 @@ pub enum CallResult {
 }
 
 pub struct CallRec {
+    pub client_kind: crate::mirror::ClientKind,
     pub ep: usize,
     pub args: Vec<ArgVal>,
     pub ret: Box<dyn DynVal>,
@@ -129,6 +130,12 @@ pub struct RunSetup {
 }
 
 pub fn setup(ctx: &Ctx, is_async: bool, knobs: GenKnobs) -> RunSetup {
+    setup_with(ctx, is_async, knobs, false)
+}
+
+/// `macro_server`: the hand-written `#[conjure_endpoints]` mirror traits take
+/// precedence over the generated endpoints for the endpoints they cover.
+pub fn setup_with(ctx: &Ctx, is_async: bool, knobs: GenKnobs, macro_server: bool) -> RunSetup {
     let handler = Handler::new(ctx);
     // knob: the registered encodings and their order
     let rt = match ctx.draw(4) {
@@ -138,9 +145,13 @@ pub fn setup(ctx: &Ctx, is_async: bool, knobs: GenKnobs) -> RunSetup {
     };
     let rt = Arc::new(rt);
     let (sync_eps, async_eps) = if is_async {
-        (Vec::new(), glue_gen::endpoints_async(&handler, &rt))
+        let mut v = if macro_server { crate::mirror::endpoints_async(&handler, &rt) } else { Vec::new() };
+        v.extend(glue_gen::endpoints_async(&handler, &rt));
+        (Vec::new(), v)
     } else {
-        (glue_gen::endpoints_blocking(&handler, &rt), Vec::new())
+        let mut v = if macro_server { crate::mirror::endpoints_blocking(&handler, &rt) } else { Vec::new() };
+        v.extend(glue_gen::endpoints_blocking(&handler, &rt));
+        (v, Vec::new())
     };
     // server list position -> IR endpoint index, verified by name
     let names: Vec<(String, String)> = if is_async {
@@ -262,7 +273,12 @@ impl Engine for WireEngine {
             k
         };
         let is_async = ctx.chance(1, 2);
-        let st = setup(ctx, is_async, knobs);
+        let macro_server = ctx.chance(1, 3);
+        if macro_server {
+            ctx.sig("macro-server");
+            ctx.count("probe.macro_server_run");
+        }
+        let st = setup_with(ctx, is_async, knobs, macro_server);
         let run_enabled: Vec<FK> = match self.profile {
             Profile::C04 | Profile::C07 => REQ_TRANSPARENT.to_vec(),
             Profile::C06 => {
@@ -287,7 +303,49 @@ impl Engine for WireEngine {
         let mut calls: Vec<CallRec> = Vec::new();
         let mut transports: Vec<SimTransport> = Vec::new();
         for c in 0..ncalls {
-            let ep = pick_ep(ctx, self.profile);
+            let mut ep = pick_ep(ctx, self.profile);
+            // client kind: generated, macro-derived, or the foreign Smile peer
+            let mut client_kind = crate::mirror::ClientKind::Generated;
+            if matches!(self.profile, Profile::C04 | Profile::C07 | Profile::C18 | Profile::C19 | Profile::C09) && ctx.chance(1, 4) {
+                // steer towards the mirrored endpoints
+                let covered: Vec<usize> = ir().eps.iter().map(|e| e.idx).filter(|i| crate::mirror::macro_client_covers(*i) || crate::mirror::smile_client_covers(*i)).collect();
+                let applicable: Vec<usize> = covered
+                    .into_iter()
+                    .filter(|i| match self.profile {
+                        Profile::C07 => ir().eps[*i].args.iter().any(|a| matches!(a.kind, PKind::Path | PKind::Query)),
+                        Profile::C19 | Profile::C09 => ir().eps[*i].args.iter().any(|a| a.kind != PKind::Body) || !matches!(ir().eps[*i].auth, Auth::None),
+                        _ => true,
+                    })
+                    .collect();
+                if !applicable.is_empty() {
+                    ep = applicable[ctx.draw(applicable.len() as u64) as usize];
+                    let m = crate::mirror::macro_client_covers(ep);
+                    let sm = crate::mirror::smile_client_covers(ep) && matches!(self.profile, Profile::C04);
+                    client_kind = match (m, sm) {
+                        (true, true) => {
+                            if ctx.chance(1, 2) {
+                                crate::mirror::ClientKind::Macro
+                            } else {
+                                crate::mirror::ClientKind::Smile
+                            }
+                        }
+                        (true, false) => crate::mirror::ClientKind::Macro,
+                        (false, true) => crate::mirror::ClientKind::Smile,
+                        _ => crate::mirror::ClientKind::Generated,
+                    };
+                }
+            }
+            match client_kind {
+                crate::mirror::ClientKind::Macro => {
+                    ctx.sig("macro-client");
+                    ctx.count("probe.macro_client_call");
+                }
+                crate::mirror::ClientKind::Smile => {
+                    ctx.sig("smile-client");
+                    ctx.count("probe.smile_client_call");
+                }
+                _ => {}
+            }
             let args = ctx.with_tape(|t| glue_gen::gen_args(ep, t, &st.knobs));
             let ret = ctx.with_tape(|t| glue_gen::gen_ret(ep, t, &st.knobs));
             let mut plan = self.plan_for(ctx, &st.knobs, faults_on, &run_enabled);
@@ -318,6 +376,7 @@ impl Engine for WireEngine {
                 (t.as_str().to_string(), format!("{:?}", t))
             });
             calls.push(CallRec {
+                client_kind,
                 ep,
                 args,
                 ret,
@@ -335,7 +394,7 @@ impl Engine for WireEngine {
         if !st.is_async {
             for (c, call) in calls.iter_mut().enumerate() {
                 let tr = &transports[c];
-                let r = guarded(|| glue_gen::call_blocking(tr, call.ep, &call.args));
+                let r = guarded(|| crate::mirror::call_blocking(tr, call.client_kind, call.ep, &call.args));
                 call.result = result_of(r);
             }
         } else {
@@ -354,7 +413,7 @@ impl Engine for WireEngine {
                     };
                     tasks.push(task(
                         async move {
-                            let r = CatchPanic(Box::pin(glue_gen::call_async(tr, call.ep, &call.args))).await;
+                            let r = CatchPanic(Box::pin(crate::mirror::call_async(tr, call.client_kind, call.ep, &call.args))).await;
                             *slot.lock().unwrap() = Some(result_of(r));
                         },
                         cancel_after,
